@@ -12,7 +12,9 @@ RULE = (
     "and general grammar-generated programs with anonymous gates) is parsed ONCE into a shared circuit object; a "
     "drawn history of 1-7 library calls (expand_macros, fill_in_let(ov), fill_in_map, expand_subcircuits with default "
     "and with caller-named bounding gates, "
-    "normalize_blocks_with_unitary_timing, get_used_qubit_indices, generate_jaqal_program, run_jaqal_circuit, "
+    "normalize_blocks_with_unitary_timing, get_used_qubit_indices of the circuit, get_used_qubit_indices of every "
+    "top-level statement on its own right after ANOTHER circuit with a larger register was analysed (no answer may "
+    "name a qubit this circuit does not have), generate_jaqal_program, run_jaqal_circuit, "
     "parse_jaqal_output_list; repetitions allowed) is applied to that same object.  After EVERY call: a deep "
     "structural fingerprint of the shared circuit (everything reachable through __dict__, lists, dicts, tuples, "
     "slices: types, primitive values, container shapes, element identities; plus repr) is unchanged, and the "
@@ -26,7 +28,7 @@ RULE = (
 )
 ASSUMPTIONS = ["calls that legitimately raise JaqalError are fine (their outcome must still be reproducible on a fresh copy)"]
 
-OPS = ["mac", "let", "map", "sub", "subx", "norm", "used", "gen", "run", "out"]
+OPS = ["mac", "let", "map", "sub", "subx", "norm", "used", "useds", "gen", "run", "out"]
 TRANSFORMS = {"mac", "let", "map", "sub", "subx", "norm"}
 
 
@@ -55,6 +57,14 @@ def _call(op, circ, env, n_visits, nq, np_seed):
         return guard(normalize_blocks_with_unitary_timing, circ, what=op)
     if op == "used":
         return guard(get_used_qubit_indices, circ, what=op)
+    if op == "useds":
+        # the analysis of every top-level statement on its own (one that reaches a busy gate may
+        # be refused: which qubits "all" are is the circuit's business)
+        # - after ANOTHER circuit (a larger register) went through the same analysis
+        from .c13 import _decoy
+
+        guard(get_used_qubit_indices, _decoy(nq + 2), what="used (another circuit)")
+        return "ok", [guard(get_used_qubit_indices, s_, what=op) for s_ in circ.body.statements]
     if op == "gen":
         return guard(generate, circ, what=op)
     if op == "run":
@@ -76,6 +86,8 @@ def _summary(op, st_, r):
         return ("circuit", r, t if s2 == "ok" else ("err", str(t)))
     if op == "used":
         return ("used", {k: sorted(v) for k, v in dict(r).items()})
+    if op == "useds":
+        return ("useds", [("err", type(x).__name__) if s_ == "err" else {k: sorted(v) for k, v in dict(x).items()} for s_, x in r])
     if op == "gen":
         return ("text", r)
     if op in ("run", "out"):
@@ -147,6 +159,10 @@ def check(case):
         st_, r = _call(op, shared, env, n_visits, nq, case["np_seed"])
         got = _summary(op, st_, r)
         done.append(op)
+        if op == "useds":
+            for ans in got[1]:
+                if isinstance(ans, dict) and any(k_ >= nq for v_ in ans.values() for k_ in v_):
+                    raise Violation("result-depends-on-history", f"the analysis of a statement of this circuit ({nq} qubits) answers {ans}: qubits of the circuit analysed before it\n--- program:\n{text}", where="useds-other-circuit")
         if chain is not None:
             cfp0, crp0 = extract.fingerprint(chain), repr(chain)
             st_c, r_c = _call(op, chain, env, n_visits_env if chain_let else n_visits, nq, case["np_seed"])
